@@ -25,6 +25,8 @@ DEEP = [
     ('u2_create', 'cancel_group', 'u2_groups', 'u2_jobs', 'u2_commit') if False else ('u2_create', 'cancel_group', 'u2_groups', 'u2_jobs'),
     ('schedule', 'cancel_group', 'started', 'complete'),
     ('creating', 'cancel_group', 'schedule', 'cancel_group'),
+    ('creating', 'cancel_group', 'activate', 'schedule'),      # job-private: instance activates after the cancel, same attempt
+    ('creating', 'activate', 'cancel_group', 'schedule'),
 ]
 
 
